@@ -77,7 +77,11 @@ def gen_case(rng):
     if fault and fault.startswith("fixture"):
         backend = "llm"
         cfg["t3"]["reflection"]["backend"] = "llm"
+    if rng.random() < 0.3:
+        cfg["t4"]["enabled"] = False  # T4 kill switch: the dry-run exit inside the T4 block is not reached
     return {"world": world, "cfg": cfg, "allow": rng.random() < 0.7, "plan_flag": rng.random() < 0.7, "dry_run": rng.random() < 0.15, "backend": backend,
+            # how the plan's request reaches the gate: Plan.reflection, or the flag the LLM planner path stashes on the state
+            "flag_via": rng.choice(["plan", "plan", "stash"]),
             "fault": fault, "exc": rng.randrange(len(EXCS)), "agent": rng.choice(["A", "B", "Ünï"]), "turn": rng.choice([1, 7, 12]),
             "text": rng.choice(["hello world", "moon river cat", "", "!!!", "tree " * 50]), "completion": rng.choice(["short summary", "multi\nline\tcompletion with   spaces", "w " * 400, "ünï ✓"]),
             "clock2": {"pc_step": rng.choice([0.0, 1e-6]), "wall": rng.choice([1.0e9, 3.0e9])}}
@@ -169,7 +173,10 @@ def run_once(case, allow, fixture_lines, sess, vclock=None, record_key=None):
             if fault == "timeout":
                 vc = VClock(pc_step=float(cfg["scheduler"]["budgets"]["time_ms_reflection"]) / 1000.0 + 0.5)
             extra = {"_dry_run_until_t4": True} if case["dry_run"] else None
-            plan = {"ops": [{"kind": "Speak", "max_tokens": cfg["t3"]["tokens"]}, {"kind": "EditGraph"}], "deltas": [["node", "n:a", "weight", 0.2, 1]], "reflection": case["plan_flag"]}
+            plan = {"ops": [{"kind": "Speak", "max_tokens": cfg["t3"]["tokens"]}, {"kind": "EditGraph"}], "deltas": [["node", "n:a", "weight", 0.2, 1]],
+                    "reflection": case["plan_flag"] and case.get("flag_via", "plan") == "plan"}
+            if case.get("flag_via") == "stash":
+                env.state["_planner_reflection_flag"] = bool(case["plan_flag"])
             with patched(refl_mod, "reflect", reflect_w), patched(RW, "write_reflection_entries", write_w), patched(core, "log_t3_reflection", tel_w), \
                     patched(llm.FixtureLLMAdapter, "generate", gen_w):
                 r = env.run(case["agent"], case["text"], case["turn"], plan=plan, vclock=vc, ctx_extra=extra)
@@ -204,7 +211,7 @@ def check_case(case, sess: Session):
         return
     should = case["allow"] and case["plan_flag"] and not case["dry_run"]
     combo = (case["allow"], case["plan_flag"], case["dry_run"])
-    sess.seen("gate_combinations", combo)
+    sess.seen("gate_combinations", combo + (case.get("flag_via", "plan"), case["cfg"]["t4"].get("enabled", True)))
     calls = o["calls"]
     if not should:
         sess.count("gate_closed_turns")
@@ -255,6 +262,21 @@ def check_case(case, sess: Session):
             b = [(e.get("id"), e.get("ts"), e.get("text"), e.get("owner"), e.get("kind")) for e in o2["adds"]]
             if a != b:
                 sess.violation("entries-depend-on-wall-clock", tcase, {"a": a[:2], "b": b[:2]})
+    # --- follow-up in the same process (module state survives): the same prompt again, now with the fixture gone, must
+    #     write nothing; and once the fixture is back it must write again (no positive / negative memoisation of outcomes)
+    if fault is None and case["backend"] == "llm" and calls["keys"] and o["adds"]:
+        gone = run_once(dict(case, fault="fixture-missing"), True, None, sess)
+        if "rejected" not in gone and not gone["r"]["exc"]:
+            sess.count("followup:fixture-removed-after-success")
+            if gone["adds"]:
+                sess.violation("wrote-despite-fixture-missing-after-an-earlier-success-with-the-same-prompt", tcase, {"adds": len(gone["adds"])})
+        elif "rejected" not in gone:
+            sess.violation("reflection-path-aborts-turn:" + gone["r"]["exc_type"], tcase, gone["r"]["tb"][-300:])
+        back = run_once(case, True, [{"prompt_hash": k, "completion": case["completion"]} for k in calls["keys"]], sess)
+        if "rejected" not in back and not back["r"]["exc"]:
+            sess.count("followup:fixture-back-after-failure")
+            if [e.get("id") for e in back["adds"]] != [e.get("id") for e in o["adds"]]:
+                sess.violation("entries-differ-after-an-intermediate-failure", tcase, {"first": [e.get("id") for e in o["adds"]], "again": [e.get("id") for e in back["adds"]]})
     # --- twin with reflection off: canonical records and utterance equal
     off = run_once(case, False, None, sess)
     if "rejected" not in off and not off["r"]["exc"]:
